@@ -607,12 +607,12 @@ pub fn run(ctx: &RunCtx) -> i32 {
     };
     let types = xml_types();
     let n_types = types.len() as u64;
-    let reps = ctx.tier.sz(24, 600);
+    let reps = ctx.tier.sz(200, 20_000);
     let sch = schema();
     let mut total = par_run(ctx.workers, n_types, |j, r| {
         let t = &types[j as usize];
         // sanitizer legs take a seed-dependent sample of the types
-        if scale_div() > 1 && derive_seed(ctx.seed, "C13/sample", j) % 12 != 0 {
+        if scale_div() >= 1000 && derive_seed(ctx.seed, "C13/sample", j) % 12 != 0 {
             return;
         }
         let mut g = Rng::new(derive_seed(ctx.seed, "C13", j));
@@ -638,7 +638,7 @@ pub fn run(ctx: &RunCtx) -> i32 {
     let ser_only = xml_ser_only_types();
     for t in &ser_only {
         for i in 0..reps {
-            if scale_div() > 1 && derive_seed(ctx.seed, t.name, 99) % 12 != 0 {
+            if scale_div() >= 1000 && derive_seed(ctx.seed, t.name, 99) % 12 != 0 {
                 continue;
             }
             let mut g = mk_gen(derive_seed(ctx.seed, t.name, i), if i % 2 == 0 { Presence::Full } else { Presence::Random(1, 2) });
